@@ -74,4 +74,271 @@ theorem atomicPath_chain (x : String) (co ico : Option Coord) (quals : List Val)
     · simp only [wrap_not_typename, Bool.false_and, Bool.false_eq_true, ↓reduceIte, wrap_getType]
       exact atomicPath_chain x co ico quals names ms g _ (by simp at hf; omega)
 
+/-! ## `_fix_decl_name_type` -/
+
+/-- the `Decl` as `_build_declarations` first makes it (name still unknown) -/
+def declPre (dco : Option Coord) (q al st fn : List Val) (ty init : Val) : Val :=
+  mk .Decl dco [.none, .list q, .list al, .list st, .list fn, ty, init, .none]
+
+/-- ... and as it leaves `_fix_decl_name_type` -/
+def declPost (x : String) (dco : Option Coord) (q al st fn : List Val) (ty init : Val) : Val :=
+  mk .Decl dco [.str x, .list q, .list al, .list st, .list fn, ty, init, .none]
+
+def tdRaw (x : String) (co : Option Coord) : Val := mk .TypeDecl co [.str x, .none, .none, .none]
+
+theorem tdRaw_isTypeDecl (x : String) (co : Option Coord) : (tdRaw x co).isCls .TypeDecl = true := rfl
+theorem tdFull_isTypeDecl (x : String) (co : Option Coord) (q : List Val) (t : Val) :
+    (tdFull x co q t).isCls .TypeDecl = true := rfl
+
+theorem decl_size (dco : Option Coord) (a b c d e ty f g : Val) (ms : List M) (td : Val) (h : ty = chainVal ms td) :
+    ms.length + 2 ≤ (mk .Decl dco [a, b, c, d, e, ty, f, g]).size := by
+  subst h
+  have := chain_size ms td
+  have h1 : 1 ≤ td.size := by cases td <;> simp [Val.size]
+  simp only [mk, Val.size, Val.sizeL]
+  omega
+
+/-- the specifier names, as `_parse_declaration_specifiers` stores them: one `IdentifierType` per keyword -/
+def typeNodes (names : List (String × Option Coord)) : List Val := names.map fun p => identType p.2 [p.1]
+
+theorem typeNodes_find (names : List (String × Option Coord)) :
+    (typeNodes names).find? (fun tn => !tn.isCls .IdentifierType) = none := by
+  induction names with
+  | nil => rfl
+  | cons p r ih => simp only [typeNodes, List.map_cons, List.find?_cons] at ih ⊢; exact ih
+
+theorem attrOrCrash_some {α} (a : α) (site : String) : attrOrCrash (some a) site = pure a := rfl
+
+theorem mapP_typeNodes (g : Val → P (List Val)) (hg : ∀ co n s, g (identType co [n]) s = .ok [Val.str n] s)
+    (names : List (String × Option Coord)) (s : PState) :
+    mapP g (typeNodes names) s = .ok (names.map fun p => [Val.str p.1]) s := by
+  induction names with
+  | nil => rfl
+  | cons p r ih =>
+    simp only [typeNodes, List.map_cons] at ih ⊢
+    simp only [mapP, DeclSkel.bnd, hg, DeclSkel.pur, ih]
+
+theorem flatten_singletons (names : List (String × Option Coord)) :
+    (names.map fun p => [Val.str p.1]).flatten = names.map fun p => Val.str p.1 := by
+  induction names with
+  | nil => rfl
+  | cons p r ih => simp [ih]
+
+theorem mapInner_decl (f : Val → Option Val) (dco : Option Coord) (a b c d e i g : Val) (ms : List M) (td : Val)
+    (htd : td.isCls .TypeDecl = true) (F : Nat) (hF : ms.length < F) :
+    mapInnerTypeDecl (F + 1) (mk .Decl dco [a, b, c, d, e, chainVal ms td, i, g]) f =
+      (f td).map fun td' => mk .Decl dco [a, b, c, d, e, chainVal ms td', i, g] := by
+  have h1 : (mk .Decl dco [a, b, c, d, e, chainVal ms td, i, g]).isCls .TypeDecl = false := rfl
+  have h2 : (mk .Decl dco [a, b, c, d, e, chainVal ms td, i, g]).getAttr "type" = some (chainVal ms td) := rfl
+  simp only [mapInnerTypeDecl, h1, h2, Bool.false_eq_true, ↓reduceIte, mapInnerTypeDecl_chain f ms td F htd hF]
+  cases f td with
+  | none => rfl
+  | some t' => rfl
+
+/-- **`_fix_decl_name_type`** on a named declarator chain and keyword / typedef-name specifiers:
+the declaration gets the declared name; the `TypeDecl` at the end of the chain gets a copy of
+the qualifiers and ONE `IdentifierType` listing the specifier names in source order; the modifier
+chain itself is untouched -/
+theorem fixDeclNameType_ok (x : String) (dco tco : Option Coord) (q al st fn : List Val) (ms : List M) (init : Val)
+    (p0 : String × Option Coord) (names : List (String × Option Coord)) (s : PState) :
+    fixDeclNameType (declPre dco q al st fn (chainVal ms (tdRaw x tco)) init) (typeNodes (p0 :: names)) s =
+      .ok (declPost x dco q al st fn
+        (chainVal ms (tdFull x tco q (identType p0.2 ((p0 :: names).map (·.1))))) init) s := by
+  have hsz := decl_size dco .none (.list q) (.list al) (.list st) (.list fn) _ init .none ms (tdRaw x tco) rfl
+  have hsz' := decl_size dco (.str x) (.list q) (.list al) (.list st) (.list fn) _ init .none ms (tdRaw x tco) rfl
+  -- the innermost TypeDecl
+  have hinner : innerTypeDecl ((declPre dco q al st fn (chainVal ms (tdRaw x tco)) init).size + 1)
+      (declPre dco q al st fn (chainVal ms (tdRaw x tco)) init) = some (tdRaw x tco) := by
+    have h1 : (declPre dco q al st fn (chainVal ms (tdRaw x tco)) init).isCls .TypeDecl = false := rfl
+    have h2 : (declPre dco q al st fn (chainVal ms (tdRaw x tco)) init).getAttr "type" = some (chainVal ms (tdRaw x tco)) := rfl
+    simp only [innerTypeDecl, h1, h2, Bool.false_eq_true, ↓reduceIte, Option.bind_some]
+    exact innerTypeDecl_chain ms _ _ rfl (by simp only [declPre]; omega)
+  have hdn : (tdRaw x tco).getAttr "declname" = some (.str x) := rfl
+  have hset : (declPre dco q al st fn (chainVal ms (tdRaw x tco)) init).setAttr "name" (.str x) =
+      some (declPost x dco q al st fn (chainVal ms (tdRaw x tco)) init) := rfl
+  have hq : (declPost x dco q al st fn (chainVal ms (tdRaw x tco)) init).getAttr "quals" = some (.list q) := rfl
+  have hF : ms.length < (declPre dco q al st fn (chainVal ms (tdRaw x tco)) init).size := by
+    simp only [declPre]; omega
+  have hm1 : mapInnerTypeDecl ((declPre dco q al st fn (chainVal ms (tdRaw x tco)) init).size + 1)
+      (declPost x dco q al st fn (chainVal ms (tdRaw x tco)) init) (fun td => td.setAttr "quals" (.list q)) =
+      some (declPost x dco q al st fn (chainVal ms (tdFull x tco q .none)) init) := by
+    rw [declPost, mapInner_decl _ _ _ _ _ _ _ _ _ ms _ rfl _ hF]; rfl
+  have hm2 : ∀ t, mapInnerTypeDecl ((declPre dco q al st fn (chainVal ms (tdRaw x tco)) init).size + 1)
+      (declPost x dco q al st fn (chainVal ms (tdFull x tco q .none)) init) (fun td => td.setAttr "type" t) =
+      some (declPost x dco q al st fn (chainVal ms (tdFull x tco q t)) init) := by
+    intro t
+    rw [declPost, mapInner_decl _ _ _ _ _ _ _ _ _ ms _ rfl _ hF]; rfl
+  have hhead : valCoord ((typeNodes (p0 :: names)).head!) "typename[0].coord" s = .ok p0.2 s := rfl
+  have hne : (typeNodes (p0 :: names)).isEmpty = false := rfl
+  simp only [fixDeclNameType, DeclSkel.bnd, hinner, attrOrCrash_some, DeclSkel.pur, hdn, hset, hq, copyList, hm1,
+    typeNodes_find, hne, Bool.false_eq_true, ↓reduceIte]
+  rw [mapP_typeNodes _ (fun co n s => rfl)]
+  simp only [hhead, flatten_singletons, hm2, attrOrCrash_some, DeclSkel.pur]
+  simp [identType, Val.strs, Function.comp_def]
+
+/-! ## `fix_atomic_specifiers` -/
+
+/-- a finished declaration of the fragment: nothing for `fix_atomic_specifiers` to do -/
+theorem fixAtomicSpecifiers_noop (x : String) (dco tco ico : Option Coord) (q al st fn : List Val) (ms : List M)
+    (init : Val) (names : List String) (hq : (q.any fun v => v == Val.str "_Atomic") = false) (s : PState) :
+    fixAtomicSpecifiers (declPost x dco q al st fn (chainVal ms (tdFull x tco q (identType ico names))) init) s =
+      .ok (declPost x dco q al st fn (chainVal ms (tdFull x tco q (identType ico names))) init) s := by
+  have hsz := decl_size dco (.str x) (.list q) (.list al) (.list st) (.list fn) _ init .none ms
+    (tdFull x tco q (identType ico names)) rfl
+  have hty : (declPost x dco q al st fn (chainVal ms (tdFull x tco q (identType ico names))) init).getAttr "type" =
+      some (chainVal ms (tdFull x tco q (identType ico names))) := rfl
+  have hpath : atomicPath ((declPost x dco q al st fn (chainVal ms (tdFull x tco q (identType ico names))) init).size + 1)
+      (chainVal ms (tdFull x tco q (identType ico names)))
+      [declPost x dco q al st fn (chainVal ms (tdFull x tco q (identType ico names))) init] = none :=
+    atomicPath_chain x tco ico q names ms _ _ (by simp only [declPost]; omega)
+  have honce : fixAtomicOnce (declPost x dco q al st fn (chainVal ms (tdFull x tco q (identType ico names))) init) s =
+      .ok (declPost x dco q al st fn (chainVal ms (tdFull x tco q (identType ico names))) init, false) s := by
+    simp only [fixAtomicOnce, DeclSkel.bnd, hty, attrOrCrash_some, DeclSkel.pur, hpath]
+  have hloop : fixAtomicLoop ((declPost x dco q al st fn (chainVal ms (tdFull x tco q (identType ico names))) init).size + 1)
+      (declPost x dco q al st fn (chainVal ms (tdFull x tco q (identType ico names))) init) s =
+      .ok (declPost x dco q al st fn (chainVal ms (tdFull x tco q (identType ico names))) init) s := by
+    simp only [fixAtomicLoop, DeclSkel.bnd, honce, Bool.false_eq_true, ↓reduceIte, DeclSkel.pur]
+  have h1 : (declPost x dco q al st fn (chainVal ms (tdFull x tco q (identType ico names))) init).isCls .TypeDecl = false := rfl
+  have hinner : innerTypeDecl ((declPost x dco q al st fn (chainVal ms (tdFull x tco q (identType ico names))) init).size + 1)
+      (declPost x dco q al st fn (chainVal ms (tdFull x tco q (identType ico names))) init) =
+      some (tdFull x tco q (identType ico names)) := by
+    simp only [innerTypeDecl, h1, hty, Bool.false_eq_true, ↓reduceIte, Option.bind_some]
+    exact innerTypeDecl_chain ms _ _ rfl (by simp only [declPost]; omega)
+  have htq : (tdFull x tco q (identType ico names)).getAttr "quals" = some (.list q) := rfl
+  have hdq : (declPost x dco q al st fn (chainVal ms (tdFull x tco q (identType ico names))) init).getAttr "quals" = some (.list q) := rfl
+  have hdn : (tdFull x tco q (identType ico names)).getAttr "declname" = some (.str x) := rfl
+  simp only [fixAtomicSpecifiers, DeclSkel.bnd, hloop, hinner, htq, hdq, attrOrCrash_some, DeclSkel.pur, listContainsStr, hq,
+    Bool.false_eq_true, ↓reduceIte, hdn, Val.isNone]
+
+/-! ## `_build_declarations` -/
+
+/-- one init-declarator as `_parse_init_declarator` delivers it: a modifier chain around the
+`TypeDecl` of the name, and an optional initializer -/
+structure DI where
+  ms : List M
+  x : String
+  tco : Option Coord
+  init : Val
+
+def DI.raw (d : DI) : Val := chainVal d.ms (tdRaw d.x d.tco)
+def DI.info (d : DI) : DeclInfo := { decl := d.raw, init := d.init }
+/-- the coordinate of a declaration is that of its outermost declarator node -/
+def DI.coord (d : DI) : Option Coord := X.coordOfVal d.raw
+
+theorem chain_isNode (ms : List M) (t : Val) (h : t.isNode = true) : (chainVal ms t).isNode = true := by
+  cases ms with
+  | nil => exact h
+  | cons m ms => exact wrap_isNode m _
+
+theorem DI.raw_isNode (d : DI) : d.raw.isNode = true := chain_isNode d.ms _ rfl
+
+theorem chain_notSpecNode (ms : List M) (x : String) (co : Option Coord) :
+    isInstance (chainVal ms (tdRaw x co)) [.Enum, .Struct, .Union, .IdentifierType] = false := by
+  cases ms with
+  | nil => rfl
+  | cons m ms => cases m <;> rfl
+
+/-- the `Decl` that `_build_declarations` returns for one declarator -/
+def declOut (sp : DeclSpec) (ico : Option Coord) (names : List String) (d : DI) : Val :=
+  declPost d.x d.coord sp.qual sp.alignment sp.storage sp.function
+    (chainVal d.ms (tdFull d.x d.tco sp.qual (identType ico names))) d.init
+
+/-- what the fragment asks of the specifiers: type specifiers are keywords / a typedef name (one
+`IdentifierType` each, as `_parse_declaration_specifiers` builds them), no `typedef` storage class,
+no `_Atomic` qualifier -/
+structure SpecOK (sp : DeclSpec) (p0 : String × Option Coord) (names : List (String × Option Coord)) : Prop where
+  type_eq : sp.type = typeNodes (p0 :: names)
+  no_typedef : specHasTypedef sp = false
+  no_atomic : (sp.qual.any fun v => v == Val.str "_Atomic") = false
+
+/-- the specifier names in source order -/
+def specNames (p0 : String × Option Coord) (names : List (String × Option Coord)) : List String :=
+  (p0 :: names).map (·.1)
+
+/-- one round of the declarator loop -/
+theorem bdOne_ok (sp : DeclSpec) (p0 : String × Option Coord) (names : List (String × Option Coord))
+    (hsp : SpecOK sp p0 names) (d : DI) (hty : env.ty d.x = false) (s : PState) (toks : List Tk) (hs : SeesT env s toks) :
+    ∃ s', bdOne sp false true d.info sp.qual s = .ok (declOut sp p0.2 (specNames p0 names) d, sp.qual) s' ∧
+      SeesT env s' toks ∧ s'.idx = s.idx := by
+  unfold specNames
+  obtain ⟨s', hadd, hs', hi, _⟩ := addIdentifier_spec s toks d.x d.coord hs hty
+  refine ⟨s', ?_, hs', hi⟩
+  have hnn : d.info.decl.isNone = false := by
+    have := d.raw_isNode
+    show d.raw.isNone = false
+    cases h : d.raw <;> simp_all [Val.isNode, Val.isNone]
+  have hco : ∀ st, valCoord d.info.decl "decl['decl'].coord" st = .ok d.coord st :=
+    fun st => valCoord_node d.raw_isNode _ st
+  have hinst : isInstance d.info.decl [.Enum, .Struct, .Union, .IdentifierType] = false := chain_notSpecNode _ _ _
+  have hfix := fixDeclNameType_ok d.x d.coord d.tco sp.qual sp.alignment sp.storage sp.function d.ms d.init p0 names
+  have hname : (declPost d.x d.coord sp.qual sp.alignment sp.storage sp.function
+      (chainVal d.ms (tdFull d.x d.tco sp.qual (identType p0.2 ((p0 :: names).map (·.1))))) d.init).getAttr "name" = some (.str d.x) := rfl
+  have hfco : ∀ st, valCoord (declPost d.x d.coord sp.qual sp.alignment sp.storage sp.function
+      (chainVal d.ms (tdFull d.x d.tco sp.qual (identType p0.2 ((p0 :: names).map (·.1))))) d.init) "fixed_decl.coord" st = .ok d.coord st :=
+    fun st => rfl
+  have hatom := fixAtomicSpecifiers_noop d.x d.coord d.tco p0.2 sp.qual sp.alignment sp.storage sp.function d.ms d.init
+    ((p0 :: names).map (·.1)) hsp.no_atomic
+  have hquals : (declPost d.x d.coord sp.qual sp.alignment sp.storage sp.function
+      (chainVal d.ms (tdFull d.x d.tco sp.qual (identType p0.2 ((p0 :: names).map (·.1))))) d.init).getAttr "quals" = some (.list sp.qual) := rfl
+  have hpre : mk .Decl d.coord [.none, .list sp.qual, .list sp.alignment, .list sp.storage, .list sp.function,
+      d.info.decl, d.info.init, d.info.bitsize] = declPre d.coord sp.qual sp.alignment sp.storage sp.function d.raw d.init := rfl
+  simp only [bdOne, hnn, Bool.false_eq_true, ↓reduceIte, DeclSkel.bnd, hco, hinst, hpre, hsp.type_eq]
+  simp only [DI.raw, hfix, hname, attrOrCrash_some, DeclSkel.pur, DeclSkel.bnd, hfco, hadd, hatom, hquals, declOut]
+
+theorem bdLoop_ok (sp : DeclSpec) (p0 : String × Option Coord) (names : List (String × Option Coord))
+    (hsp : SpecOK sp p0 names) : ∀ (ds : List DI) (acc : List Val) (s : PState) (toks : List Tk),
+    (∀ d ∈ ds, env.ty d.x = false) → SeesT env s toks →
+    ∃ s', bdLoop sp false true (ds.map DI.info) sp.qual acc s =
+        .ok (sp.qual, acc ++ ds.map (declOut sp p0.2 (specNames p0 names))) s' ∧
+      SeesT env s' toks ∧ s'.idx = s.idx
+  | [], acc, s, toks, _, hs => ⟨s, by simp [bdLoop, DeclSkel.pur], hs, rfl⟩
+  | d :: ds, acc, s, toks, hty, hs => by
+    obtain ⟨s1, h1, hs1, hi1⟩ := bdOne_ok sp p0 names hsp d (hty d List.mem_cons_self) s toks hs
+    obtain ⟨s2, h2, hs2, hi2⟩ := bdLoop_ok sp p0 names hsp ds (acc ++ [declOut sp p0.2 (specNames p0 names) d]) s1 toks
+      (fun d' hd' => hty d' (List.mem_cons_of_mem _ hd')) hs1
+    refine ⟨s2, ?_, hs2, by omega⟩
+    simp only [List.map_cons, bdLoop, DeclSkel.bnd, h1]
+    rw [h2]
+    simp
+
+theorem setQuals_declOut (sp : DeclSpec) (ico : Option Coord) (names : List String) (d : DI) :
+    (declOut sp ico names d).setAttr "quals" (.list sp.qual) = some (declOut sp ico names d) := rfl
+
+theorem mapP_setQuals (sp : DeclSpec) (ico : Option Coord) (names : List String) : ∀ (ds : List DI) (s : PState),
+    mapP (fun d => attrOrCrash (d.setAttr "quals" (.list sp.qual)) "quals") (ds.map (declOut sp ico names)) s =
+      .ok (ds.map (declOut sp ico names)) s
+  | [], s => rfl
+  | d :: ds, s => by
+    simp only [List.map_cons, mapP, DeclSkel.bnd, setQuals_declOut, attrOrCrash_some, DeclSkel.pur, mapP_setQuals sp ico names ds]
+
+/-- **`_build_declarations`**: one `Decl` per declarator, in source order, each with its own name and
+modifier chain, all sharing the specifiers; every name registered as an ordinary identifier -/
+theorem buildDeclarations_ok (sp : DeclSpec) (p0 : String × Option Coord) (names : List (String × Option Coord))
+    (hsp : SpecOK sp p0 names) (d0 : DI) (ds : List DI) (hty : ∀ d ∈ d0 :: ds, env.ty d.x = false)
+    (s : PState) (toks : List Tk) (hs : SeesT env s toks) :
+    ∃ s', buildDeclarations sp ((d0 :: ds).map DI.info) true s =
+        .ok ((d0 :: ds).map (declOut sp p0.2 (specNames p0 names))) s' ∧
+      SeesT env s' toks ∧ s'.idx = s.idx := by
+  obtain ⟨s1, h1, hs1, hi1⟩ := bdLoop_ok sp p0 names hsp (d0 :: ds) [] s toks hty hs
+  refine ⟨s1, ?_, hs1, hi1⟩
+  have hbs : d0.info.bitsize.isNone = true := rfl
+  have hnn : d0.info.decl.isNone = false := by
+    have := d0.raw_isNode
+    show d0.raw.isNone = false
+    cases h : d0.raw <;> simp_all [Val.isNode, Val.isNone]
+  have hinst : isInstance d0.info.decl [.Enum, .Struct, .Union, .IdentifierType] = false := chain_notSpecNode _ _ _
+  have hinner : innerTypeDecl (d0.info.decl.size + 1) d0.info.decl = some (tdRaw d0.x d0.tco) := by
+    have := chain_size d0.ms (tdRaw d0.x d0.tco)
+    exact innerTypeDecl_chain d0.ms _ _ rfl (by show d0.ms.length < (chainVal d0.ms (tdRaw d0.x d0.tco)).size + 1; omega)
+  have hdn : (tdRaw d0.x d0.tco).getAttr "declname" = some (.str d0.x) := rfl
+  have hfirst : bdFirstFix sp ((d0 :: ds).map DI.info) d0.info s = .ok (sp, (d0 :: ds).map DI.info) s := by
+    have hsn : (Val.str d0.x).isNone = false := rfl
+    simp only [bdFirstFix, hbs, Bool.not_true, Bool.false_eq_true, ↓reduceIte, hnn, hinst, Bool.not_false, DeclSkel.bnd, hinner,
+      attrOrCrash_some, DeclSkel.pur, hdn, hsn]
+  have hmap := mapP_setQuals sp p0.2 (specNames p0 names) (d0 :: ds) s1
+  simp only [List.nil_append] at h1
+  simp only [buildDeclarations, hsp.no_typedef, DeclSkel.bnd]
+  simp only [List.map_cons] at hfirst h1 hmap ⊢
+  simp only [DeclSkel.bnd, DeclSkel.pur, hfirst, h1, hmap]
+
 end PycModel.BuildDecl
